@@ -246,6 +246,15 @@ TARGETS = [
          cfg=dict(implicit="{α : Type}", params=[("answers", "List (Option α)")], ret="Option α", fuel="answers.length + 1",
                   for_lists={"&self.0": ("answers", "none")}, local_types={"locator": "Option α", "reader": "Option α", "locator_idx": "Nat"},
                   exprs={"locator.locate(uuid, path)": "locator", "Ok(None)": "none"})),
+    # ---- Container::check: manifest, directory pack, then every content pack that can be located
+    dict(name="containerCheck", group="Lookup", file="src/reader/jubako.rs", fn="check", after=r"/// Check the container",
+         cfg=dict(params=[("manifestOk", "Bool"), ("directoryOk", "Bool"), ("packs", "List (Option Bool)")], ret="Bool",
+                  fuel="packs.length + 1",
+                  for_lists={"self.manifest_pack.get_pack_infos().iter()": ("packs", "none")},
+                  local_types={"pack_info": "Option Bool", "pack_info_idx": "Nat", "pack_reader": "Option Bool"},
+                  exprs={"self.manifest_pack.check()": "manifestOk", "self.directory_pack.check()": "directoryOk",
+                         "self.locator.locate(pack_info.uuid, &pack_info.pack_location)": "pack_info",
+                         "open_as_container_pack(r)": "r", "pseudo_container_pack.check()": "pseudo_container_pack"})),
 ]
 
 
